@@ -336,6 +336,13 @@ pub fn corpora(tier: Tier) -> Vec<Corpus> {
     // still counts as an observation of its tags), alone and next to ordinary occurrences
     out.push(Corpus { name: "one-token-sentences".into(), lines: vec![(false, "a/X".into()), (false, "a/Y b".into()), (false, "b/S".into()), (false, "ab/Z/q".into()), (false, "cd c d dc".into())], tag_dict: vec!["ab/D".into(), "q/F".into()] });
     out.push(Corpus { name: "only-one-token-sentences".into(), lines: vec![(false, "a/X".into()), (false, "a/Y".into()), (false, "あ/V/w".into()), (true, "a/Z".into()), (false, "c d".into())], tag_dict: vec!["あ/D/E".into()] });
+    // a LARGE tag dictionary (66 000 single-tag tokens that sort before every corpus token): the model has more
+    // than 65 536 tag models and the ambiguous corpus tokens come last
+    out.push(Corpus {
+        name: "large-tag-dictionary".into(),
+        lines: vec![(false, "a/X b a/Y".into()), (false, "b a/X b".into()), (false, "a/Y b b".into()), (false, "b b a/X".into()), (false, "あ/V/w b あ/U/w".into()), (false, "cd c d dc".into())],
+        tag_dict: (0..66_000).map(|i| format!("{i:05}/D")).collect(),
+    });
     // partially annotated sentences
     for (n, lines) in [
         ("partial-1", vec![(true, "a/X|b-a/Y".to_string()), (true, "a b/Q|a/Z".to_string()), (true, "a/Y|a/X".to_string())]),
@@ -412,6 +419,10 @@ pub fn run(tier: Tier) -> ! {
         for (k, cfg) in cfgs.iter().enumerate() {
             // every corpus with a rotating half of the configurations (quick) / all (thorough)
             if tier == Tier::Quick && (k + ci) % 4 != 0 {
+                continue;
+            }
+            // the large dictionary with two configurations only (cost)
+            if corpus.tag_dict.len() > 1000 && k / 4 > 1 {
                 continue;
             }
             chk.eval(1);
